@@ -30,11 +30,11 @@ func (c *memCache) Put(id string, s *type3.ClientState)      { c.m[id] = s }
 type universe struct {
 	iss        *type3.RateLimitedIssuer
 	secrets    [3][]byte
-	clientKeys [3][]byte
+	clientKeys [4][]byte                             // clientKeys[3] is the NEGATION of client 0's key (same x, other sign byte); it is never verified
 	states     [3]type3.RateLimitedTokenRequestState // an honest request per client (for verify)
 	verifyBl   [3][]byte
 	indexKeys  [4]*big.Int
-	refIndex   [3][4][]byte
+	refIndex   [4][4][]byte
 	anon       [4][]byte // the last one is the EMPTY anonymous origin ID
 }
 
@@ -70,6 +70,11 @@ func theUniverse() *universe {
 				u.refIndex[c][o] = ref.AnonymousIssuerOriginID(u.clientKeys[c], u.indexKeys[o])
 			}
 		}
+		u.clientKeys[3] = append([]byte{}, u.clientKeys[0]...)
+		u.clientKeys[3][0] ^= 0x01
+		for o := 0; o < 4; o++ {
+			u.refIndex[3][o] = ref.AnonymousIssuerOriginID(u.clientKeys[3], u.indexKeys[o])
+		}
 		for a := 0; a < 3; a++ {
 			u.anon[a] = bytes.Repeat([]byte{byte(0xA0 + a)}, 32)
 		}
@@ -103,18 +108,28 @@ func (s step) String() string {
 func runHistory(h []step) (violation string, sig string, interesting bool) {
 	u := theUniverse()
 	att := type3.NewRateLimitedAttester(&memCache{m: map[string]*type3.ClientState{}})
-	registered := [3]bool{}
-	bound := [3]map[string]int{{}, {}, {}} // client -> hex(index) -> anon
+	registered := [4]bool{}
+	bound := [4]map[string]int{{}, {}, {}, {}} // client -> hex(index) -> anon
 	type accepted struct{ c, o, a int }
 	var acc []accepted
 	sawReject := false
+	panicked := ""
 	finalize := func(c, o, a int, blind []byte) ([]byte, error) {
 		requestKey := ref.BlindCompressed(u.clientKeys[c], new(big.Int).SetBytes(blind), ref.ClientBlindCtx)
 		blindedReqKey := ref.BlindCompressed(requestKey, u.indexKeys[o], ref.IssuerBlindCtx) // what the issuer would return for origin o
+		// the attester gets private copies of its byte arguments, which the caller overwrites right after the call
+		args := [][]byte{append([]byte{}, u.clientKeys[c]...), append([]byte{}, blind...), append([]byte{}, blindedReqKey...), append([]byte{}, u.anon[a]...)}
 		var id []byte
 		var err error
-		if out := rt.GuardLite(func() { id, err = att.FinalizeIndex(u.clientKeys[c], blind, blindedReqKey, u.anon[a]) }); out.Panic != nil {
+		if out := rt.GuardLite(func() { id, err = att.FinalizeIndex(args[0], args[1], args[2], args[3]) }); out.Panic != nil {
+			panicked = fmt.Sprintf("FinalizeIndex(c%d,o%d,a%d) panicked: %v", c, o, a, out.Panic)
 			return nil, fmt.Errorf("panic: %v", out.Panic)
+		}
+		id = append([]byte{}, id...)
+		for _, b := range args {
+			for i := range b {
+				b[i] = 0x5A
+			}
 		}
 		return id, err
 	}
@@ -131,13 +146,23 @@ func runHistory(h []step) (violation string, sig string, interesting bool) {
 			if st.client == 2 {
 				continue // client 2 is never verified
 			}
-			if err := att.VerifyRequest(*u.states[st.client].Request(), u.verifyBl[st.client], u.clientKeys[st.client], u.anon[0]); err != nil {
+			vargs := [][]byte{append([]byte{}, u.verifyBl[st.client]...), append([]byte{}, u.clientKeys[st.client]...), append([]byte{}, u.anon[0]...)}
+			verr := att.VerifyRequest(*u.states[st.client].Request(), vargs[0], vargs[1], vargs[2])
+			for _, b := range vargs {
+				for i := range b {
+					b[i] = 0x5A // the caller reuses its buffers
+				}
+			}
+			if err := verr; err != nil {
 				return fmt.Sprintf("step %d %v: honest VerifyRequest failed: %v", i, st, err), "C09/verify", false
 			}
 			registered[st.client] = true
 			continue
 		}
 		id, err := finalize(st.client, st.origin, st.anon, st.blind)
+		if panicked != "" {
+			return fmt.Sprintf("step %d %v: %s", i, st, panicked), "C09/panic", false
+		}
 		idx := hex.EncodeToString(u.refIndex[st.client][st.origin])
 		prev, isBound := bound[st.client][idx]
 		want := registered[st.client] && (!isBound || prev == st.anon)
@@ -191,7 +216,7 @@ func histString(h []step) string {
 }
 
 func TestHistories(t *testing.T) {
-	s := rt.S("histories").SetRule("rapid state machine over {verify(client), finalize(client, origin, anonymous origin ID) with a fresh drawn blind} on 3 clients (one never verified), 4 origins (two share an index key), 4 anonymous origin IDs (one of them empty), failing verifications (another client's request under this client's key), up to 30 steps; model: registered[client], bound[client][index]; invariant after every step: decision == (registered and (index unbound or bound to this ID)), returned ID == reference HKDF value; at the end every accepted pair is replayed (still accepted) and a second ID for a bound index is refused. non-trivial = history containing a rejection followed by a later accept, or a collision between origins sharing an index key; distinct by history")
+	s := rt.S("histories").SetRule("rapid state machine over {verify(client), finalize(client, origin, anonymous origin ID) with a fresh drawn blind} on 4 client keys (one never verified, one the negation of a verified key), 4 origins (two share an index key), 4 anonymous origin IDs (one of them empty), failing verifications (another client's request under this client's key), up to 30 steps; model: registered[client], bound[client][index]; invariant after every step: decision == (registered and (index unbound or bound to this ID)), returned ID == reference HKDF value; at the end every accepted pair is replayed (still accepted) and a second ID for a bound index is refused. non-trivial = history containing a rejection followed by a later accept, or a collision between origins sharing an index key; distinct by history")
 	rt.Check(t, 150, 20000, func(t *rapid.T) {
 		var h []step
 		t.Repeat(map[string]func(*rapid.T){
@@ -199,7 +224,7 @@ func TestHistories(t *testing.T) {
 				h = append(h, step{verify: true, client: gen.Uniform(t, 3, "client")})
 			},
 			"finalize": func(t *rapid.T) {
-				h = append(h, step{client: gen.Uniform(t, 3, "client"), origin: gen.Uniform(t, 4, "origin"), anon: gen.Uniform(t, 4, "anon"), blind: gen.P384KeyBytes().Draw(t, "blind")})
+				h = append(h, step{client: gen.Uniform(t, 4, "client"), origin: gen.Uniform(t, 4, "origin"), anon: gen.Uniform(t, 4, "anon"), blind: gen.P384KeyBytes().Draw(t, "blind")})
 			},
 			"verifyMismatch": func(t *rapid.T) {
 				h = append(h, step{failingVerify: true, client: gen.Uniform(t, 3, "client")})
@@ -225,7 +250,7 @@ func TestHistories(t *testing.T) {
 
 // TestAllShortHistories: bounded-exhaustive enumeration of every history up to a length over a 10-letter alphabet.
 func TestAllShortHistories(t *testing.T) {
-	s := rt.S("all-short-histories").SetRule("EVERY history of length <= 3 (quick) / <= 4 (thorough) over the 13-letter alphabet {verify-mismatch(c2), verify-mismatch(c0), finalize(c0,o0,empty anon ID), verify(c0), verify(c1), finalize(c0,o0,a0), finalize(c0,o0,a1), finalize(c0,o3,a0), finalize(c0,o3,a1), finalize(c0,o1,a0), finalize(c1,o0,a0), finalize(c1,o0,a1), finalize(c2,o0,a0)} with fixed blinds; same model and invariants; non-trivial = every history of length >= 2; distinct by construction")
+	s := rt.S("all-short-histories").SetRule("EVERY history of length <= 3 (quick) / <= 4 (thorough) over the 14-letter alphabet {verify-mismatch(c2), verify-mismatch(c0), finalize(c0,o0,empty anon ID), verify(c0), verify(c1), finalize(c0,o0,a0), finalize(c0,o0,a1), finalize(c0,o3,a0), finalize(c0,o3,a1), finalize(c0,o1,a0), finalize(c1,o0,a0), finalize(c1,o0,a1), finalize(c2,o0,a0)} with fixed blinds; same model and invariants; non-trivial = every history of length >= 2; distinct by construction")
 	bl := bytes.Repeat([]byte{0x42}, 33)
 	alphabet := []step{
 		{verify: true, client: 0}, {verify: true, client: 1},
@@ -235,6 +260,7 @@ func TestAllShortHistories(t *testing.T) {
 		{client: 1, origin: 0, anon: 0, blind: bl}, {client: 1, origin: 0, anon: 1, blind: bl},
 		{client: 2, origin: 0, anon: 0, blind: bl},
 		{client: 0, origin: 0, anon: 3, blind: bl}, // the empty anonymous origin ID
+		{client: 3, origin: 0, anon: 0, blind: bl}, // the negation of client 0's key: never verified
 		{failingVerify: true, client: 2},
 		{failingVerify: true, client: 0},
 	}
@@ -268,6 +294,6 @@ func TestAllShortHistories(t *testing.T) {
 	rec(nil)
 	s.EvalN(cnt)
 	s.NontrivialEnum(nontrivial)
-	s.MarkExhaustive(fmt.Sprintf("all histories of length <= %d over a 13-letter alphabet", maxLen))
+	s.MarkExhaustive(fmt.Sprintf("all histories of length <= %d over a 14-letter alphabet", maxLen))
 	s.Sample(func() any { return histString([]step{alphabet[0], alphabet[2], alphabet[5], alphabet[4]}) })
 }
